@@ -2,6 +2,7 @@
 package main
 
 import (
+	"os/exec"
 	"flag"
 	"fmt"
 	"os"
@@ -36,6 +37,7 @@ func cmdVC(args []string) {
 	funcs := fs.String("funcs", "", "comma separated function keys (relative names; pkgpath::name also accepted)")
 	extern := fs.String("extern", "/verif/specs/extern", "directory of assumed contracts")
 	timeout := fs.Int("timeout", 10, "solver timeout (s)")
+	split := fs.Bool("split", false, "for failed obligations whose goal is a conjunction: check each conjunct and report the ones not discharged (diagnostics)")
 	dump := fs.String("dump", "", "write the queries of obligations whose name contains this string to /tmp/govc-dump")
 	verbose := fs.Bool("v", false, "print discharged obligations too")
 	model := fs.Bool("model", false, "ask for models")
@@ -93,6 +95,10 @@ func cmdVC(args []string) {
 	if *ssaDump {
 		for _, k := range keys {
 			c.Funcs[k].WriteTo(os.Stdout)
+			fmt.Println("# instruction sites (class#ordinal at line):")
+			for _, l := range c.SiteList(c.Funcs[k]) {
+				fmt.Println("#  " + l)
+			}
 		}
 		return
 	}
@@ -155,7 +161,7 @@ func cmdVC(args []string) {
 		if *dump != "" && strings.Contains(ob.Name, *dump) {
 			_ = os.MkdirAll("/tmp/govc-dump", 0o755)
 			fn := fmt.Sprintf("/tmp/govc-dump/%s-%s.smt2", sanitizeFile(ob.Name), vc.QueryHash(ob.Query))
-			_ = os.WriteFile(fn, []byte(ob.Query+"(check-sat)\n(get-model)\n"), 0o644)
+			_ = os.WriteFile(fn, []byte("; trace: "+strings.Join(ob.Trace, " > ")+"\n; status: "+r.Status+"\n"+ob.Query+"(check-sat)\n(get-model)\n"), 0o644)
 		}
 	}
 	nbad := 0
@@ -176,6 +182,17 @@ func cmdVC(args []string) {
 		}
 		if *verbose {
 			fmt.Printf("       trace: %s\n", strings.Join(ob.Trace, " > "))
+		}
+		if *split {
+			for _, bo := range a.bad {
+				for i, cj := range splitGoal(bo.Query) {
+					q := cj.query
+					out := runZ3(q, 8)
+					if out != "unsat" {
+						fmt.Printf("       conjunct %d not discharged (%s): %.300s\n", i+1, out, cj.text)
+					}
+				}
+			}
 		}
 		if *model && r.Model != "" {
 			for _, mv := range ob.ModelVars {
@@ -220,4 +237,120 @@ func sanitizeFile(s string) string {
 		r = r[:100]
 	}
 	return r
+}
+
+type conjunct struct{ text, query string }
+
+// splitGoal splits the final `(assert (not G))` of a query into one query per top-level conjunct of G.
+func splitGoal(q string) []conjunct {
+	i := strings.LastIndex(q, "(assert (not ")
+	if i < 0 {
+		return nil
+	}
+	head := q[:i]
+	rest := q[i+len("(assert (not "):]
+	g, tail := sexpr(rest)
+	if g == "" {
+		return nil
+	}
+	// tail starts with "))" closing not and assert
+	for k := 0; k < 2; k++ {
+		if j := strings.Index(tail, ")"); j >= 0 {
+			tail = tail[j+1:]
+		}
+	}
+	var parts []string
+	var walk func(t string)
+	walk = func(t string) {
+		t = strings.TrimSpace(t)
+		if strings.HasPrefix(t, "(and ") {
+			body := t[5 : len(t)-1]
+			for body != "" {
+				body = strings.TrimSpace(body)
+				if body == "" {
+					break
+				}
+				e, r := sexpr(body)
+				if e == "" {
+					break
+				}
+				walk(e)
+				body = r
+			}
+			return
+		}
+		parts = append(parts, t)
+	}
+	walk(g)
+	if len(parts) < 2 {
+		return nil
+	}
+	var out []conjunct
+	for _, p := range parts {
+		out = append(out, conjunct{p, head + "(assert (not " + p + "))\n" + tail})
+	}
+	return out
+}
+
+// sexpr returns the first s-expression (or atom) of s and the remainder.
+func sexpr(s string) (string, string) {
+	s = strings.TrimLeft(s, " \n\t")
+	if s == "" {
+		return "", ""
+	}
+	if s[0] != '(' {
+		if s[0] == '"' {
+			j := 1
+			for j < len(s) {
+				if s[j] == '"' {
+					if j+1 < len(s) && s[j+1] == '"' {
+						j += 2
+						continue
+					}
+					break
+				}
+				j++
+			}
+			return s[:j+1], s[j+1:]
+		}
+		j := strings.IndexAny(s, " \n\t)")
+		if j < 0 {
+			return s, ""
+		}
+		return s[:j], s[j:]
+	}
+	depth := 0
+	inStr := false
+	for j := 0; j < len(s); j++ {
+		ch := s[j]
+		if inStr {
+			if ch == '"' {
+				inStr = false
+			}
+			continue
+		}
+		switch ch {
+		case '"':
+			inStr = true
+		case '(':
+			depth++
+		case ')':
+			depth--
+			if depth == 0 {
+				return s[:j+1], s[j+1:]
+			}
+		}
+	}
+	return "", ""
+}
+
+func runZ3(q string, secs int) string {
+	cmd := exec.Command("z3-new", "-in", fmt.Sprintf("-T:%d", secs))
+	cmd.Stdin = strings.NewReader(q + "(check-sat)\n")
+	out, _ := cmd.Output()
+	line := strings.TrimSpace(strings.SplitN(string(out), "\n", 2)[0])
+	if line == "" {
+		return "timeout"
+	}
+	return line
 }
